@@ -34,9 +34,16 @@ SHAPES = {
     "q124_128_mus": ([1, 2, 4], [(12, 8)], "none", True, None, "beat"),
     "q6_24_34_44": ([6], [(2, 4), (3, 4), (4, 4)], "first", False, None, "beat"),
     "q23_34_68_quarter_pickup": ([2, 3], [(3, 4), (6, 8)], "first", False, None, "quarter"),
+    # quarter maps while musical beats are switched on (the quarter map must not depend on the beat mode)
+    "q2_38_quarter_musmode": ([2], [(3, 8)], "first", "quarter_in_musical_mode", None, "quarter"),
+    "q2_68_quarter_musmode": ([2], [(6, 8)], "first", "quarter_in_musical_mode", None, "quarter"),
+    # beat-mode histories: custom musical beats, back to notated, musical again -> defaults must be in force
+    "q2_68_mus_seq": ([2], [(6, 8)], "first", "custom_notated_musical", None, "beat"),
+    "q4_98_mus_seq_notated": ([4], [(9, 8)], "none", "custom_then_notated", None, "beat"),
 }
 QUICK = ["q1_44", "q2_34_quarter", "q23_68", "q4_68_24_mus", "q2_44_pickup", "q2_34_pickup_quarter",
-         "q12_68_pickup_mus", "q2_98_custom", "q32_32_58"]
+         "q12_68_pickup_mus", "q2_98_custom", "q32_32_58", "q2_38_quarter_musmode", "q2_68_mus_seq",
+         "q4_98_mus_seq_notated"]
 
 MUSICAL = {2: 2, 3: 3, 4: 4, 6: 2, 9: 3, 12: 4}
 
@@ -47,6 +54,13 @@ def _lcm(a, b):
 
 def make(shape):
     qvals, tss, mkind, musical, custom, which = SHAPES[shape]
+    history = musical if isinstance(musical, str) else None
+    if history == "quarter_in_musical_mode":
+        musical = False  # oracle: the quarter map ignores the beat mode
+    elif history == "custom_notated_musical":
+        musical = True   # ends in musical mode with DEFAULT musical beats
+    elif history == "custom_then_notated":
+        musical = False
     names = ["t_first", "t_last", "t"]
     names += ["tq%d" % i for i in range(1, len(qvals))]
     names += ["tts%d" % i for i in range(1, len(tss))]
@@ -110,7 +124,15 @@ def make(shape):
             require(t_mend > t_first)
             require(t_mend <= t_last)
             part.add(S.Measure(number=1), t_first, t_mend)
-        if musical:
+        if history == "quarter_in_musical_mode":
+            part.use_musical_beat()
+        elif history in ("custom_notated_musical", "custom_then_notated"):
+            odd = {"%d/%d" % tss[0]: tss[0][0]}  # a non-default number of musical beats
+            part.use_musical_beat(odd)
+            part.use_notated_beat()
+            if history == "custom_notated_musical":
+                part.use_musical_beat()
+        elif musical:
             part.use_musical_beat(custom or {})
 
         # ---------------- oracle (exact, integer arithmetic over denominator D)
